@@ -24,7 +24,7 @@ LEVEL_NOTE = ("Trusted: the canonicalisation (DefId numbers, %tmp names, generat
               "numeric title suffixes renumbered by first appearance); a forked child right after module "
               "import is a session with empty history.")
 TECHNIQUE = "history checker with fault injection (sys.monitoring failpoints in the compiler) against fresh-process baselines"
-RULE = ("pool of 28 definitions (incl. three that are fine themselves but depend on failing ones); check "
+RULE = ("pool of 33 definitions (incl. three that are fine themselves but depend on failing ones); check "
         "outcomes are compared with fresh-process baselines as well, half of the checks are repeated "
         "immediately; histories of 10-40 ops over {check, compile, emulate} x definition, 20% of "
         "compile ops carry a failpoint at a random line event inside compiler/*; distinct = distinct "
@@ -201,6 +201,29 @@ def bad_linear() -> None:
 def bad_generic_entry(x: int @comptime) -> int:
     return x
 
+@guppy.struct
+class BadS:
+    x: int
+    y: "NoSuchType"
+
+@guppy
+def uses_bads(s: BadS) -> int:
+    return s.x
+
+@guppy
+def builds_bads(a: int) -> int:
+    t = BadS(a, a)
+    return t.x
+
+@guppy.struct
+class GoodS:
+    v: V
+    n: int
+
+@guppy
+def uses_goods(s: GoodS) -> int:
+    return s.v.norm() + s.n
+
 @guppy
 def dep_bad(a: int) -> int:
     return bad_check(a) + 1
@@ -216,7 +239,7 @@ def dep_bad_comptime(a: int) -> int:
 DEFS = ["V", "f_add", "f_loop", "f_arr", "f_calls", "g_id", "g_len", "g_use", "n_rec", "n_plain", "c_sum",
         "c_bad", "uses_comptime", "uses_ov", "q_bell", "q_mod", "main_ok", "bad_check", "bad_undefined",
         "bad_linear", "bad_generic_entry", "ov_a", "dep_bad", "dep_bad2", "dep_bad_comptime",
-        "n_rec0", "n_rec_twice", "t_many"]
+        "n_rec0", "n_rec_twice", "t_many", "BadS", "uses_bads", "builds_bads", "GoodS", "uses_goods"]
 ENTRY_DEFS = {"main_ok"}
 COMPILER_SUFFIX = "guppylang_internals/compiler/"
 
